@@ -227,22 +227,51 @@ def _pat_ids(p):
     return out
 
 
-def enclosing_conditions(target, fn_hir):
-    """Condition nodes of the `if`s (then-branch) that lexically enclose target."""
+def enclosing_conditions_ex(target, fn_hir):
+    """[(condition node that HOLDS when target runs, the `if` node, form)] for the conditions target is control-dependent on:
+    form "then"  : target inside the then-branch of `if C`
+    form "else"  : target inside the else-branch of `if !C`
+    form "exit"  : an earlier statement `if !C { return/break/continue/bail }` in an enclosing block
+    form "guard" : a match-arm guard.  Only syntactic negation (`!C`) is understood for the last two forms."""
+    def inner_of_not(c):
+        c0 = c
+        while c0.get("k") in ("Use", "Type") or (c0.get("k") == "Block" and not c0.get("stmts") and c0.get("expr") is not None):
+            c0 = c0["e"] if c0.get("k") != "Block" else c0["expr"]
+        if c0.get("k") == "Unary" and c0.get("op") == "Not":
+            return c0["e"]
+        return None
     for n, anc in hir.walk(fn_hir["body"]):
         if n is target:
             chain = anc + (n,)
             conds = []
             for i in range(len(chain) - 1):
                 p, c = chain[i], chain[i + 1]
+                if p.get("k") in ("Block", "Loop"):
+                    for st in p.get("stmts") or ():
+                        if st is c:
+                            break
+                        s0 = hir.strip(st)
+                        if s0.get("k") == "If" and s0.get("else") is None and hir.diverges(s0["then"]):
+                            x = inner_of_not(s0["cond"])
+                            if x is not None:
+                                conds.append((x, s0, "exit"))
                 if p.get("k") == "If" and c is p.get("then"):
-                    conds.append(p["cond"])
+                    conds.append((p["cond"], p, "then"))
+                if p.get("k") == "If" and c is p.get("else"):
+                    x = inner_of_not(p["cond"])
+                    if x is not None:
+                        conds.append((x, p, "else"))
                 if p.get("k") == "Match":
                     for a in p["arms"]:
                         if c is a["body"] and a.get("guard"):
-                            conds.append(a["guard"])
+                            conds.append((a["guard"], p, "guard"))
             return conds
     return []
+
+
+def enclosing_conditions(target, fn_hir):
+    """Condition nodes that hold whenever target runs (see enclosing_conditions_ex)."""
+    return [c for c, _, _ in enclosing_conditions_ex(target, fn_hir)]
 
 
 def neighbour_pawn_guard(call, fn, F):
